@@ -316,7 +316,17 @@ def _try_databook(fw, ss, run=True):
             proj.run_sim()
         return {"outcome": "accept", "where": "", "msg": ""}
     except Exception as e:  # noqa
-        return describe(e)
+        res = describe(e)
+    # the same content handed over as a ProjectData OBJECT (Project(databook=data)) must be refused as well: validation is not a property of the file reader
+    try:
+        d = at.ProjectData.from_spreadsheet(ss, fw)
+    except Exception:  # noqa
+        return res
+    try:
+        at.Project(framework=fw, databook=d, do_run=False)
+    except Exception:  # noqa
+        return res
+    return {"outcome": "accept", "where": "Project(databook=<ProjectData object>)", "msg": f"refused as a spreadsheet ({res['outcome']}: {res['msg'][:80]}) but accepted when the same content is passed as a ProjectData object"}
 
 
 @_limited
